@@ -10,6 +10,7 @@ import (
 	"io/ioutil"
 	"math"
 	"os"
+	"os/exec"
 	"path/filepath"
 	"regexp"
 	"sort"
@@ -716,6 +717,7 @@ func (s *St) run(call string) string {
 	if nl := s.nowLine(); nl != "" && !s.quiet && !s.comment {
 		emit("%s = -", nl)
 	}
+	watchDir = s.dir
 	watchStart(call)
 	rc, res := s.exec(call)
 	watchStop()
@@ -732,10 +734,14 @@ func (s *St) run(call string) string {
 
 
 // ---- watchdog: an API call that does not return (endless loop, self-deadlock) ends the run with a
-// failing-input line instead of hanging the check ----
+// failing-input line instead of hanging the check.  The limit is generous: Open on a segment whose
+// torn tail left garbage in a size field allocates a buffer of that size (up to 4 GiB, zeroed) before
+// the read fails, which takes tens of seconds on a loaded machine and is slow, not wrong. ----
 var (
-	watchMu   sync.Mutex
-	watchCall string
+	watchDir   string // directory of the database the current call works on
+	watchKnown string // when set, a call that does not return is an instance of this known finding
+	watchMu    sync.Mutex
+	watchCall  string
 	watchAt   time.Time
 	watchOn   bool
 )
@@ -751,8 +757,15 @@ func watchStart(call string) {
 				watchMu.Lock()
 				c, at := watchCall, watchAt
 				watchMu.Unlock()
-				if c != "" && time.Since(at) > 45*time.Second {
-					emit("#SPEC the call %q did not return within 45 s (endless loop or deadlock inside the library)", c)
+				if c != "" && time.Since(at) > 240*time.Second {
+					if keep := os.Getenv("VERIF_KEEP_HANG"); keep != "" && watchDir != "" {
+						exec.Command("cp", "-r", watchDir, keep).Run()
+					}
+					if watchKnown != "" {
+						emit("#KNOWN %s the call %q did not return within 240 s", watchKnown, c)
+					} else {
+						emit("#SPEC the call %q did not return within 240 s (endless loop or deadlock inside the library)", c)
+					}
 					out.Flush()
 					os.Exit(0)
 				}
